@@ -89,8 +89,8 @@ COVERED = {
     "src/spox/_node.py": ["Node.__init__", "Node.inference", "Node.to_onnx", "Node._init_output_vars", "Node.min_input", "Node.min_output"],
     "src/spox/_fields.py": ["BaseVars.__post_init__", "BaseVars._get_field_type", "BaseVars._flatten", "BaseVars.get_vars", "BaseVars.fully_typed"],
     "src/spox/_type_system.py": ["Type._from_onnx", "Tensor._to_onnx", "Tensor.shape", "Sequence._to_onnx", "Optional._to_onnx"],
-    "src/spox/_shape.py": ["Natural.from_simple", "Natural.simple_from_onnx", "Natural.simple_to_onnx", "Unknown.to_simple",
-                           "Constant.to_simple", "Shape.from_simple", "Shape.from_onnx", "Shape.to_simple", "Shape.to_onnx"],
+    "src/spox/_shape.py": ["Natural.from_simple", "Natural.simple_from_onnx", "Natural.from_onnx", "Unknown.to_simple",
+                           "Constant.to_simple", "Shape.from_simple", "Shape.from_onnx", "Shape.to_simple"],
     "src/spox/opset/ai/onnx/v17.py": ["_Compress.infer_output_types", "_Loop.infer_output_types"],
 }
 
